@@ -270,3 +270,24 @@ def run(ctx: Ctx):
             ctx.case("tk-dt-spelling", [total, repr(a)])
             if got != (total, 5):
                 ctx.violation("failing-input", "tk-dt-spelling", dict(dt=repr(a), total=total), dict(implementation=str(got), expected=[total, 5]))
+    # ---- the clock of a warm-started run: its records carry start' + n*dt too (start' = the restart time)
+    from harness.props import c08
+    from harness.common import pmap
+    wcases = [c08.make_base(ctx.seed * 100000 + 13500 + k) for k in range(20 if ctx.thorough else 4)]
+    for sc, g in zip(wcases, pmap(c08.run_base_and_restarts, wcases)):
+        if g["status"] != "ok":
+            continue
+        for rs in g["restarts"]:
+            fk = g["files"][rs["k"]]
+            at, _ = c08.abs_times(fk)
+            rstep = int(round((at[-1] - sc["start"]) / c08.scen.DT))
+            case = dict(scenario=c08.scen.brief(sc), restart_from=fk["name"], at_step=rstep)
+            ctx.case("warm-clock", [sc["seed"], rs["k"]], sample=case, nontrivial=True)
+            if rs["status"] != "ok":
+                continue
+            expect = [float(sc["start"] + n * c08.scen.DT) for n in range(rstep + 1, sc["nsteps"]) if n % sc["period"] == 0]
+            have = [t for f in rs["files"] if "unreadable" not in f for t in c08.abs_times(f)[0]]
+            if have != expect:
+                ctx.violation("failing-input", "warm-clock", case, dict(what="record times of the restarted run (absolute seconds)", implementation=have,
+                              expected=expect, theorem="Ladim.C13.clock_reads (clock = start + n*dt at step n, also after a warm start)"),
+                              tags=dict(first="warm-clock"))
